@@ -886,6 +886,16 @@ func indep(a, b Trans) bool {
 	for _, x := range transChans(a) {
 		for _, y := range transChans(b) {
 			if x == y {
+				// same channel: receives from a closed channel only read it; a send into and a
+				// receive from a buffered channel that is neither empty nor full commute
+				if a.kind == TRecvClosed && b.kind == TRecvClosed {
+					continue
+				}
+				if (a.kind == TSendBuf && b.kind == TRecvBuf) || (a.kind == TRecvBuf && b.kind == TSendBuf) {
+					if n := len(x.Buf); n >= 1 && n < x.Cap {
+						continue
+					}
+				}
 				return false
 			}
 		}
